@@ -233,7 +233,7 @@ pub fn history_strategy() -> impl Strategy<Value = Vec<Item>> {
 pub fn run(cx: &Cx) -> Report {
     let mut rep = Report::new(RULE);
     rep.assumptions = vec![
-        "inputs are classed cheap/expensive by a static bound on result size (literal exponents <= 5000, digits <= 10000, every intermediate value <= 2^15 bits); expensive inputs are skipped and counted, never run".into(),
+        "inputs are classed cheap/expensive by a static bound on result size (literal exponents <= 5000, digits <= 10000, every intermediate value <= 2^15 bits, requested digits x bits of the value <= 10^7); expensive inputs are skipped and counted, never run".into(),
         "absence of crashes is only searched for, never established".into(),
         "the worker's main thread has an 8 MiB stack like an interactive rink; a panic is caught in the worker, a signal death or a confirmed overrun is observed by the supervisor".into(),
     ];
